@@ -99,8 +99,9 @@ func (s *Server) handleAuthentication(conn net.Conn) error {
 		}
 		return fmt.Errorf("socks5 client provided authentication is not supported by socks5 server")
 	}
-	if requestNoAuth {
-		// Handle no authentication. This has higher priority than user password authentication.
+	if requestNoAuth && !(requestUserPassAuth && len(s.config.AuthOpts.IngressCredentials) > 0) {
+		// Handle no authentication. This has higher priority than user password authentication,
+		// unless user and password are required: then user password authentication must be selected.
 		if !requestUserPassAuth && len(s.config.AuthOpts.IngressCredentials) > 0 {
 			HandshakeErrors.Add(1)
 			return fmt.Errorf("socks5 client requested no authentication, but user and password are required by socks5 server")
